@@ -279,6 +279,15 @@ def veq(ex, a, b):
             if a.opaque or b.opaque:
                 raise Unsupported('== on opaque strings')
         if isinstance(a, str) or isinstance(b, str):
+            o, c = (a, b) if isinstance(a, SStr) else (b, a)
+            if o.opaque:
+                # unknown text against a literal: an arbitrary but fixed answer per (string, literal)
+                memo = ex.ghost.setdefault('opaque_eq', {})
+                k = (id(o), c)
+                if k not in memo:
+                    memo[k] = (o, ex.fresh_bool('streq'))
+                    ex.ghost['havocked'] = True
+                return memo[k][1]
             raise Unsupported('== on symbolic string')
         return False
     if isinstance(a, SDict) and isinstance(b, SDict):
@@ -641,7 +650,20 @@ def binop(ex, op, l, r, inplace=False):
         if isinstance(l, (str, SStr)):
             return str_percent(ex, l, r)
         if isinstance(l, SBytes):
-            raise Unsupported('bytes % formatting')
+            # b"..%s.." % (bytes, ...): only %s with bytes arguments and a concrete format
+            if l.conc is None:
+                raise Unsupported('bytes % formatting with a symbolic format')
+            fmt = bytes(l.conc)
+            argv = list(r) if isinstance(r, tuple) else [r]
+            pieces = fmt.split(b'%s')
+            if b'%' in b''.join(pieces) or len(pieces) != len(argv) + 1:
+                raise Unsupported('bytes % formatting other than %s')
+            out = SBytes.concrete(pieces[0])
+            for x, tail in zip(argv, pieces[1:]):
+                if not isinstance(x, SBytes):
+                    raise Unsupported('bytes % formatting of a non-bytes argument')
+                out = bytes_concat(bytes_concat(out, x), SBytes.concrete(tail))
+            return out
     if isinstance(op, ast.Sub) and isinstance(l, SSet) and isinstance(r, SSet) and \
             (l.ranges or r.ranges or l.minus is not None or r.minus is not None or l.pred or r.pred):
         s = copy_set(l)
